@@ -184,3 +184,59 @@ func VH_C01_DeepArrayStep() {
 	vhAssert(vhStorageSlabCount(storage) == vhArraySlabCount(storage, rootID), "no leaked or dangling slabs")
 	vhReach("deep-step-done")
 }
+
+// A container that was created and never touched is a stored value: its root
+// slab was handed to Store (so the next commit persists it), storage holds
+// exactly that slab, it can be reopened by its root identifier, is valid and
+// empty. Every constructor: NewArray, NewMap, the batch builders on an empty
+// stream, ByteSliceToByteArray on an empty slice.
+//
+//vh:prop C01 C02 C03 C09 C17
+func VH_C01_FreshContainers() {
+	vhSetThreshold(256)
+	logst := &vLogStorage{BasicSlabStorage: vhNewBasicStorage(), stored: map[SlabID]bool{}}
+	addr := vhAddr(1)
+	b := &vDigesterBuilder{levels: 4}
+	var rootID SlabID
+	isMap := false
+	switch vhChoose("ctor", 5) {
+	case 0:
+		a, err := NewArray(logst, addr, vTypeInfo{id: 42})
+		vhAssert(err == nil, "NewArray")
+		rootID = a.SlabID()
+	case 1:
+		m, err := NewMap(logst, addr, b, vTypeInfo{id: 42})
+		vhAssert(err == nil, "NewMap")
+		rootID = m.SlabID()
+		isMap = true
+	case 2:
+		a, err := NewArrayFromBatchData(logst, addr, vTypeInfo{id: 42}, func() (Value, error) { return nil, nil })
+		vhAssert(err == nil, "NewArrayFromBatchData(empty)")
+		rootID = a.SlabID()
+	case 3:
+		m, err := NewMapFromBatchData(logst, addr, b, vTypeInfo{id: 42}, vhCompare, vhHip, 7, func() (Value, Value, error) { return nil, nil, nil })
+		vhAssert(err == nil, "NewMapFromBatchData(empty)")
+		rootID = m.SlabID()
+		isMap = true
+	case 4:
+		a, err := ByteSliceToByteArray[vByte](logst, addr, vTypeInfo{id: 42}, nil, 0)
+		vhAssert(err == nil, "ByteSliceToByteArray(empty)")
+		rootID = a.SlabID()
+	}
+	vhAssert(logst.stored[rootID], "fresh container's root was handed to Store")
+	vhAssert(vhStorageSlabCount(logst.BasicSlabStorage) == 1, "storage holds exactly the fresh root")
+	if isMap {
+		m, err := NewMapWithRootID(logst, rootID, b)
+		vhAssert(err == nil, "fresh map reopens by its root identifier")
+		if err == nil {
+			vhCheckMap(m, addr, nil, "fresh map")
+		}
+	} else {
+		a, err := NewArrayWithRootID(logst, rootID)
+		vhAssert(err == nil, "fresh array reopens by its root identifier")
+		if err == nil {
+			vhCheckArray(a, addr, nil, "fresh array")
+		}
+	}
+	vhReach("fresh-done")
+}
